@@ -15,7 +15,7 @@ Open Scope N_scope.
    represents sg on the variables of e, with no user variable spelled like a converter helper:
    if e has the value v (peval) then the lines the converter appends run without error and leave the value's
    text in the returned atom; no variable other than fresh helpers changes. *)
-From Verif Require Import Facts.C01Facts Sem.CallPreserve Sem.JRun Facts.SimSamples.
+From Verif Require Import Facts.C01Facts Sem.CallPreserve Sem.JRun Sem.ProgramPreserve Facts.SimSamples.
 
 Theorem C01_expression_preserved : forall e sg used s vs s' b v,
   pure e = true ->
@@ -165,3 +165,29 @@ Theorem C01_source_semantics_executable : forall scall XS jc,
   forall fuel c sg sg' out g, jrun fuel XS jc c sg = Some (sg', out, g) -> env_ok sg -> J scall XS c sg sg' out g.
 Proof. exact (fun scall XS jc Hjc fuel c sg sg' out g H He => jrun_sound scall XS jc Hjc fuel c sg (sg', out, g) H He). Qed.
 Print Assumptions C01_source_semantics_executable.
+
+(* WHOLE PROGRAMS.  Function definitions and top-level statements in any order; statements and function bodies from the
+   fragment of the theorems above (assignments, simultaneous assignments, prints, conditionals, loops, break, continue,
+   call statements with one or several results, return anywhere).  Every hypothesis is a computation: jprogram is the
+   interpreter of the source semantics (sound for J, C01_source_semantics_executable / C02_calls_executable),
+   program_static decides that no variable of the program is spelled like a name of the converter (C10) and that the
+   items are in the fragment, emit_bash is the model of the transpiler with the Bash converter (its script bytes are
+   compared with the implementation's on every run).  Conclusion: the emitted lines, run by the flat shell machine with the
+   script's own functions as the call oracle, terminate and print what the source prints. *)
+Theorem C01_program_preserved : forall fuel body out script st,
+  jprogram fuel body = Some out -> program_static body = true -> emit_bash body = TOk script st ->
+  exists b', lruns (call_of (b_code st) 40) [] [] [] (b_code st) (b', out).
+Proof. exact program_preserved. Qed.
+Print Assumptions C01_program_preserved.
+
+(* the hypotheses hold, by computation, for the sample programs: loop with break and continue; function called twice;
+   swap and two results; early return and a function without results; return inside a loop *)
+Example C01_program_samples :
+  (jprogram 2000 SimSamples.prog3 <> None /\ program_static SimSamples.prog3 = true) /\
+  (jprogram 2000 (SimSamples.add_def :: SimSamples.main_add) = Some (bs "in 42" ++ [10] ++ bs "42 1" ++ [10] ++ bs "in 84" ++ [10]) /\
+   program_static (SimSamples.add_def :: SimSamples.main_add) = true) /\
+  (jprogram 2000 (SimSamples.dm_def :: SimSamples.main_dm) = Some (bs "5 17 0 5" ++ [10]) /\ program_static (SimSamples.dm_def :: SimSamples.main_dm) = true) /\
+  (jprogram 2000 (SimSamples.abs_def :: SimSamples.show_def :: SimSamples.main_abs) = Some (bs "v 8" ++ [10]) /\
+   program_static (SimSamples.abs_def :: SimSamples.show_def :: SimSamples.main_abs) = true) /\
+  (jprogram 2000 (SimSamples.find_def :: SimSamples.main_find) = Some (bs "4" ++ [10]) /\ program_static (SimSamples.find_def :: SimSamples.main_find) = true).
+Proof. vm_compute. repeat split; try reflexivity. intro H; discriminate H. Qed.
